@@ -11,6 +11,7 @@ import PyElf.Spec.LineProgram
 import PyElf.Model.LineProgram
 import PyElf.Proofs.LineProgram
 import PyElf.Proofs.LineHeader
+import PyElf.Proofs.LineHeaderV5
 import PyElf.Model.Env
 import PyElf.Props.TieC05
 namespace PyElf.Props.C05
@@ -82,29 +83,57 @@ theorem linetable_cache_init (env : Env) (S : DwarfStructs) (fmt : Nat) (secs : 
     CacheOK env S fmt secs data [] := cacheOK_nil
 
 
-/-- **Header (versions 2–4).**  `_parse_line_program_at_offset` on a well-formed unit, wherever it sits in
-    the section, returns the `LineProgram` object whose header is the encoded one field by field
-    (parameters, `standard_opcode_lengths`, include directories, file table), whose program starts
-    right after the header (`program_start = tell()`) and ends at the declared `unit_length`.
+/-- the regenerated enum tables decode the DW_LNCT_* / DW_FORM_* codes of a version 5 entry format to the
+    standard's names (`TieC05.lnct_names`, `TieC05.form_names`): the environment the library runs with
+    satisfies the hypothesis `EnvOK` of the two theorems below -/
+theorem gen_env_ok (S : DwarfStructs) : EnvOK (Model.dwarfEnv S) where
+  lnct := by
+    intro ct nm h
+    have hm : ct ∈ [1, 2, 3, 4, 5] := by
+      unfold lnctName at h
+      split at h <;> first | (cases h; done) | decide
+    show Model.genEnumDecode "ENUM_DW_LNCT" (Int.ofNat ct) = some nm
+    rw [TieC05.lnct_names ct hm, h]
+  form := by
+    intro fc nm k h
+    have hm : fc ∈ [0x08, 0x1f, 0x0e, 0x1d, 0x0b, 0x05, 0x06, 0x07, 0x0f, 0x1e, 0x09] := by
+      unfold formOf at h
+      split at h <;> first | (cases h; done) | decide
+    show Model.genEnumDecode "ENUM_DW_FORM" (Int.ofNat fc) = some nm
+    rw [TieC05.form_names fc hm, h]
+    rfl
 
-    Full statement (`line_header_roundtrip`, without `hv`): the same for version 5, where `secs` are
-    the string sections, `msecs` their model-side view and `env` decodes DW_LNCT_* / DW_FORM_* as
-    `TieC05.lnct_names` / `form_names` say.  Not proved for version 5 (FormattedEntry parser built
-    from the parsed format, string resolution, legacy-compatible tables): correspondence-only there,
-    plus the closed instance `line_header_v5_instance` below. -/
-theorem line_header_roundtrip_partial (env : Env) (cfg : DwarfCfg) (msecs : Secs) (h : Header) (secs : StrSecs)
-    (is : List Instr) (pre rest : Bytes) (hwf : unitWF h secs is = true) (hv : h.version ≤ 4)
-    (hle : h.p.le = cfg.le) (hfmt : cfg.fmt = if h.fmt64 then 64 else 32) :
+/-- **Header (versions 2–5).**  `_parse_line_program_at_offset` on a well-formed unit, wherever it sits in
+    the section, returns the `LineProgram` object whose header is the encoded one field by field
+    (parameters, `standard_opcode_lengths`; versions 2–4: include directories, file table; version 5:
+    `address_size`, `segment_selector_size`, both entry formats, the directory and file-name entries
+    decoded by the `FormattedEntry` struct built from the parsed format — DW_FORM_string, line_strp,
+    strp, strp_sup, data1/2/4/8, udata, data16, block —, DW_FORM_line_strp / strp / strp_sup offsets
+    resolved to the strings they designate in .debug_line_str / .debug_str / the supplementary
+    .debug_str, and the legacy-compatible `include_directory` / `file_entry` tables derived from them),
+    whose program starts right after the header (`program_start = tell()`) and ends at the declared
+    `unit_length`.
+
+    For version 5 only: `henv` says `env` decodes the DW_LNCT_* / DW_FORM_* codes to the standard's
+    names (true of the regenerated tables: `gen_env_ok`), `hsecs` that `msecs`, the sections of the
+    running `DWARFInfo`, hold the string sections `secs` the unit refers to (`SecsView`: .debug_line_str
+    and .debug_str present with those contents, the supplementary .debug_str attached if `secs` has
+    one, each at most `PY_SSIZE_T_MAX` bytes long). -/
+theorem line_header_roundtrip (env : Env) (cfg : DwarfCfg) (msecs : Secs) (h : Header) (secs : StrSecs)
+    (is : List Instr) (pre rest : Bytes) (hwf : unitWF h secs is = true)
+    (hle : h.p.le = cfg.le) (hfmt : cfg.fmt = if h.fmt64 then 64 else 32)
+    (henv : h.version ≥ 5 → EnvOK env) (hsecs : h.version ≥ 5 → SecsView msecs secs) :
     parseLineProgramFresh env (Spec.dwarfStructs cfg) cfg.fmt msecs (pre ++ encodeUnit h is ++ rest) pre.length
       = .ok (lpOf h secs is pre.length) :=
-  parseFresh_legacy msecs h secs is pre rest hwf hv hle hfmt
+  parseFresh_all msecs h secs is pre rest hwf hle hfmt henv hsecs
 
-/-- **End to end (versions 2–4).**  Through `line_program_for_CU` with a fresh cache: the unit's
+/-- **End to end (versions 2–5).**  Through `line_program_for_CU` with a fresh cache: the unit's
     DW_AT_stmt_list designates the program, its header decodes to the encoded one, its rows are the
     standard's, decoding ends at the unit's end. -/
 theorem line_program_end_to_end (env : Env) (cfg : DwarfCfg) (msecs : Secs) (h : Header) (secs : StrSecs)
-    (is : List Instr) (pre rest : Bytes) (attrs : Fields) (hwf : unitWF h secs is = true) (hv : h.version ≤ 4)
+    (is : List Instr) (pre rest : Bytes) (attrs : Fields) (hwf : unitWF h secs is = true)
     (hle : h.p.le = cfg.le) (hasz : h.p.asz = cfg.asz) (hfmt : cfg.fmt = if h.fmt64 then 64 else 32)
+    (henv : h.version ≥ 5 → EnvOK env) (hsecs : h.version ≥ 5 → SecsView msecs secs)
     (hattr : Fields.get? attrs "DW_AT_stmt_list" = some (.int (pre.length : Int)))
     (hsz : pre.length + (encodeUnit h is).length ≤ ssizeMax) :
     ∃ lp cache entries files,
@@ -118,8 +147,37 @@ theorem line_program_end_to_end (env : Env) (cfg : DwarfCfg) (msecs : Secs) (h :
   obtain ⟨es, hrun, hrows⟩ := decode_lpOf (env := env) (cfg := cfg) h secs is pre rest hwf hle hasz hsz
   refine ⟨lpOf h secs is pre.length, [(pre.length, lpOf h secs is pre.length)], es, _, ?_, rfl, rfl, hrun, hrows⟩
   rw [lineProgramForCU_some [] attrs pre.length hattr]
-  have hp := parseFresh_legacy (env := env) (cfg := cfg) msecs h secs is pre rest hwf hv hle hfmt
+  have hp := parseFresh_all (env := env) (cfg := cfg) msecs h secs is pre rest hwf hle hfmt henv hsecs
   simp only [parseLineProgramAtOffset, List.find?_nil, hp, bind, Except.bind, pure, Except.pure, List.nil_append]
+
+/-- the three parts of the version 5 header, each on its own:
+    (1) an entry format `PrefixedArray(Struct(content_type, form), ubyte)` round-trips -/
+theorem line_v5_entry_format_roundtrip (env : Env) (henv : EnvOK env) (le : Bool) (fmt : List (Nat × Nat))
+    (pre rest : Bytes) (c : Fields) (hw : fmtWF fmt = true) :
+    Con.parse env (pre ++ fmtEnc fmt ++ rest) (.prefixed (.uint 1 le) entryFormatCon) c pre.length
+      = .ok (fmtObs fmt, pre.length + (fmtEnc fmt).length, c) :=
+  parse_fmt henv hw (Proofs.drop_pre pre _ rest)
+
+/-- (2) `FormattedEntry._parse`: the struct built at run time from the parsed format (found in the
+    context under `ff`) decodes one encoded entry, form by form; string references are still offsets -/
+theorem line_v5_formatted_entry_roundtrip (env : Env) (cfg : DwarfCfg) (fmt64 : Bool) (secs : StrSecs)
+    (fmt : List (Nat × Nat)) (vs : List FieldVal) (ff : String) (c : Fields) (pre rest : Bytes)
+    (hosz : cfg.fmt = if fmt64 then 64 else 32) (hfw : fmtWF fmt = true)
+    (hc : Fields.getR c ff = .ok (fmtObs fmt)) (hw : entryWF fmt64 secs (kindsOf fmt) vs = true) :
+    formattedParse env (Spec.dwarfStructs cfg) (pre ++ entryEnc cfg.le fmt64 (kindsOf fmt) vs ++ rest) ff pre.length c
+      = .ok (.record (entryRaw fmt vs), pre.length + (entryEnc cfg.le fmt64 (kindsOf fmt) vs).length, c) :=
+  formattedParse_ok (by rw [hosz]; cases fmt64 <;> rfl) hfw hc hw (Proofs.drop_pre pre _ rest)
+
+/-- (3) `resolve_strings`: in a parsed header holding the format under `ff` and the raw entries under
+    `df`, every DW_FORM_line_strp / strp / strp_sup field becomes the string it designates -/
+theorem line_v5_resolve_strings (msecs : Secs) (secs : StrSecs) (fmt64 : Bool) (hview : SecsView msecs secs)
+    (hdr : Fields) (ff df : String) (fmt : List (Nat × Nat)) (es : List (List FieldVal))
+    (hfw : fmtWF fmt = true) (hes : ∀ e ∈ es, entryWF fmt64 secs (kindsOf fmt) e = true)
+    (hf : Fields.get? hdr ff = some (fmtObs fmt))
+    (hd : Fields.get? hdr df = some (.list (es.map fun e => .record (entryRaw fmt e)))) :
+    resolveStrings msecs hdr ff df
+      = .ok (Fields.set hdr df (.list (es.map fun e => .record (entryObs secs fmt e)))) :=
+  resolveStrings_ok hview hfw hes hf hd
 
 /-! ### the defects repaired in /repo, as facts about the standard's machine
 
@@ -190,6 +248,33 @@ def lpAgrees (a b : LineProg) : Bool :=
         | none, none => true
         | some x, some y => Val.list x == Val.list y
         | _, _ => false)
+
+/-- the hypotheses of `line_header_roundtrip` for this unit: the regenerated environment, and the sections as
+    the running `DWARFInfo` holds them -/
+example : SecsView ⟨some exSecs5.lineStr, some exSecs5.str, none⟩ exSecs5 :=
+  ⟨rfl, rfl, fun _ h => (by cases h), (by decide), (by decide), fun _ h => (by cases h)⟩
+
+/-- `line_header_roundtrip` instantiated (version 5, non-vacuous) -/
+example :
+    parseLineProgramFresh (Model.dwarfEnv (Spec.dwarfStructs exCfg5)) (Spec.dwarfStructs exCfg5) 64
+        ⟨some exSecs5.lineStr, some exSecs5.str, none⟩ ([0xAA] ++ encodeUnit exHeader5 exProgram5 ++ [0xBB]) 1
+      = .ok (lpOf exHeader5 exSecs5 exProgram5 1) :=
+  line_header_roundtrip _ exCfg5 _ exHeader5 exSecs5 exProgram5 [0xAA] [0xBB] (by decide) rfl rfl
+    (fun _ => gen_env_ok _) (fun _ => ⟨rfl, rfl, fun _ h => (by cases h), (by decide), (by decide), fun _ h => (by cases h)⟩)
+
+/-- a second version 5 header: inline strings, a supplementary .debug_str, udata / block / data8 fields -/
+def exHeader5b : Header :=
+  { exHeader5 with
+    fmt64 := false
+    dirFmt := [(1, 0x08)]
+    dirs := [[.str [0x2f, 0x74]], [.str [0x73, 0x72, 0x63]]]
+    fileFmt := [(1, 0x1d), (2, 0x0f), (3, 0x09), (4, 0x07)]
+    fileNames := [[.ref 2, .udata ⟨1, 2⟩, .block 1 [1, 2, 3], .fixed 0x1122334455667788]] }
+def exSecs5b : StrSecs := ⟨[], [], some [0x78, 0, 0x62, 0x2e, 0x63, 0]⟩
+
+example : unitWF exHeader5b exSecs5b exProgram5 = true := by decide
+example : SecsView ⟨some [], some [], some exSecs5b.sup⟩ exSecs5b :=
+  ⟨rfl, rfl, fun _ h => (by cases h; rfl), (by decide), (by decide), fun _ h => (by cases h; decide)⟩
 
 theorem line_header_v5_instance :
     (match parseLineProgramFresh (Model.dwarfEnv (Spec.dwarfStructs exCfg5)) (Spec.dwarfStructs exCfg5) 64
